@@ -864,8 +864,36 @@ fn c05_direction<W: ZooType, R: ZooType>(ctx: &mut ZooCtx, u: &Universe, e: &Typ
             let second = if first.is_ok() { Some(r.read::<Sentinel>()) } else { None };
             (first, pos_after, second)
         });
+        // the same message as the only content of the input, declared with its exact bit length: the outcome must not
+        // depend on whether anything follows
+        let alone_bytes = vgen::bits::bools_to_bytes(&msg_bits);
+        let alone = guarded(|| {
+            let mut r = UperReader::from(SpyBits::new(&alone_bytes, boundary));
+            let first = r.read::<R>();
+            (first, boundary - r.bits_remaining().min(boundary))
+        });
         let wj = |extra: Value| json!({"direction": dir, "type": def, "value": v.short(), "uper": hex(&bytes), "message_bits": boundary, "asn1_writer": vgen::print::print_module(&u.modules[from]).chars().take(3000).collect::<String>(), "asn1_reader": vgen::print::print_module(&u.modules[to]).chars().take(3000).collect::<String>(), "detail": extra});
         let kind = top_kind(u, &e_from);
+        // compare the two readings of the same message (followed by data / alone)
+        if let (Ok((first, pos, _)), Ok((first_alone, pos_alone))) = (&r, &alone) {
+            let same = match (first, first_alone) {
+                (Ok(a), Ok(b)) => a == b && pos == pos_alone,
+                (Err(a), Err(b)) => kind_name(a) == kind_name(b),
+                _ => false,
+            };
+            if !same {
+                let show = |x: &Result<R, asn1rs::protocol::per::Error>| match x {
+                    Ok(_) => "Ok".to_string(),
+                    Err(e) => format!("Err({})", kind_name(e)),
+                };
+                ctx.rep.violation(
+                    &format!("c05:{}:outcome-depends-on-what-follows-the-message:followed={}:alone={}", dir, show(first), show(first_alone)),
+                    wj(json!({"followed_by_sentinel": {"outcome": show(first), "consumed": pos}, "alone": {"outcome": show(first_alone), "consumed": pos_alone}})),
+                );
+            }
+        } else if let Err(p) = &alone {
+            ctx.rep.violation(&format!("c05:{}:read-alone:{}", dir, p.signature()), wj(json!(null)));
+        }
         match (r, expected) {
             (Err(p), _) => ctx.rep.violation(&format!("c05:{}:read:{}", dir, p.signature()), wj(json!(null))),
             (Ok((Ok(got), pos, second)), Ok(want)) => {
@@ -996,6 +1024,24 @@ fn violations_of(u: &Universe, mi: usize, t: &Type, v: &Val, rng: &mut Rng, out:
                         if let Some(x) = make_len(n as usize, rng) {
                             out.push((rebuild(x), Violation { what, extensible: size.ext() }));
                         }
+                        // UTF8String: SIZE counts characters, not octets - too few characters that are enough octets
+                        if let (Type::CharString { cs: Charset::Utf8, .. }, true) = (t, n > 0 && n < lb) {
+                            let ch = *rng.pick(&['ä', '€', '𝄞']);
+                            let sv: String = std::iter::repeat(ch).take(n as usize).collect();
+                            if sv.len() as u64 >= lb {
+                                out.push((rebuild(Val::Str(sv)), Violation { what: "size:lb-1:multibyte-characters", extensible: size.ext() }));
+                            }
+                        }
+                    }
+                }
+                // (the same for the fixed and the half-open forms: half as many 2-octet characters as the lower bound)
+                if let (Type::CharString { cs: Charset::Utf8, .. }, true) = (t, lb >= 2) {
+                    for ch in ['ä', '€', '𝄞'] {
+                        let n = (lb as usize + ch.len_utf8() - 1) / ch.len_utf8();
+                        if (n as u64) < lb {
+                            let sv: String = std::iter::repeat(ch).take(n).collect();
+                            out.push((rebuild(Val::Str(sv)), Violation { what: "size:too-few-characters-but-enough-octets", extensible: size.ext() }));
+                        }
                     }
                 }
             }
@@ -1053,6 +1099,31 @@ fn violations_of(u: &Universe, mi: usize, t: &Type, v: &Val, rng: &mut Rng, out:
     }
 }
 
+/// UTF8String SIZE constraints are not PER-visible, so R-PER does not look at them; the property (and asn1rs) counts
+/// characters. Are all UTF8String values of `v` inside their non-extensible SIZE constraints?
+fn utf8_sizes_ok(u: &Universe, mi: usize, t: &Type, v: &Val, depth: usize) -> bool {
+    if depth > 40 {
+        return true;
+    }
+    match (t, v) {
+        (Type::Ref(n), _) => u.lookup_def(mi, n).map(|(dmi, d)| utf8_sizes_ok(u, dmi, &d.ty, v, depth + 1)).unwrap_or(true),
+        (Type::CharString { cs: Charset::Utf8, size }, Val::Str(s)) => match size.bounds() {
+            Some((lb, ub)) if !size.ext() => {
+                let n = s.chars().count() as u64;
+                n >= lb && ub.map(|u| n <= u).unwrap_or(true)
+            }
+            _ => true,
+        },
+        (Type::Sequence(c), Val::Seq(f)) | (Type::Set(c), Val::Seq(f)) => c.all().enumerate().all(|(i, comp)| match f.get(i) {
+            Some(Some(x)) => utf8_sizes_ok(u, mi, &comp.ty, x, depth + 1),
+            _ => true,
+        }),
+        (Type::SequenceOf { elem, .. }, Val::List(l)) | (Type::SetOf { elem, .. }, Val::List(l)) => l.iter().all(|x| utf8_sizes_ok(u, mi, elem, x, depth + 1)),
+        (Type::Choice { root, ext }, Val::Choice(i, inner)) => root.iter().chain(ext.iter().flatten()).nth(*i).map(|a| utf8_sizes_ok(u, mi, &a.ty, inner, depth + 1)).unwrap_or(true),
+        _ => true,
+    }
+}
+
 fn c06_single<T: ZooType>(ctx: &mut ZooCtx, u: &Universe, e: &TypeEntry) {
     let n = (ctx.values_per_type / 4).max(4);
     for k in 0..n {
@@ -1091,7 +1162,7 @@ fn c06_single<T: ZooType>(ctx: &mut ZooCtx, u: &Universe, e: &TypeEntry) {
             }
             // R-PER decides whether the mutated value is legal at all (extensible constraint) or not
             let mut enc = Enc::new(u, Deviations::default());
-            let legal = enc.encode_def(e.module, &e.def, &v).is_ok();
+            let legal = enc.encode_def(e.module, &e.def, &v).is_ok() && utf8_sizes_ok(u, e.module, &Type::Ref(e.def.clone()), &v, 0);
             if legal != viol.extensible {
                 // e.g. a freshly generated list element of a type without representable values
                 ctx.rep.hist("outcomes", if legal { "mutation-legal-per-reference-model" } else { "mutation-invalid-elsewhere" });
@@ -1564,6 +1635,93 @@ fn c04_proto_case<T: ZooType>(rep: &mut Report, e: &TypeEntry, inp: &FaultInput)
     }
 }
 
+/// protobuf-specific faults: the length of a length-delimited field (top level or one level down) is replaced by a
+/// hostile varint - around 2^64, 2^63, 2^32, just beyond the input, zero
+fn proto_length_fault(rng: &mut Rng, base: &[u8]) -> Option<Vec<u8>> {
+    // offsets (start, end) of the length varints of length-delimited fields
+    fn scan(b: &[u8], from: usize, to: usize, depth: usize, out: &mut Vec<(usize, usize)>) {
+        let mut i = from;
+        while i < to {
+            let mut key = 0u64;
+            let mut sh = 0;
+            loop {
+                let Some(x) = b.get(i) else { return };
+                i += 1;
+                key |= ((*x & 0x7F) as u64) << sh;
+                sh += 7;
+                if x & 0x80 == 0 || sh > 63 {
+                    break;
+                }
+            }
+            match key & 7 {
+                0 => {
+                    while let Some(x) = b.get(i) {
+                        i += 1;
+                        if x & 0x80 == 0 {
+                            break;
+                        }
+                    }
+                }
+                1 => i += 8,
+                5 => i += 4,
+                2 => {
+                    let start = i;
+                    let mut n = 0u64;
+                    let mut sh = 0;
+                    loop {
+                        let Some(x) = b.get(i) else { return };
+                        i += 1;
+                        n |= ((*x & 0x7F) as u64) << sh;
+                        sh += 7;
+                        if x & 0x80 == 0 || sh > 63 {
+                            break;
+                        }
+                    }
+                    out.push((start, i));
+                    let end = i.saturating_add(n as usize).min(to);
+                    if depth < 2 {
+                        scan(b, i, end, depth + 1, out);
+                    }
+                    i = end;
+                }
+                _ => return,
+            }
+        }
+    }
+    let mut spots = Vec::new();
+    scan(base, 0, base.len(), 0, &mut spots);
+    if spots.is_empty() {
+        return None;
+    }
+    let (s, e) = *rng.pick(&spots);
+    let k = rng.range(0, 40);
+    let value: u64 = match rng.below(8) {
+        0 => u64::MAX - k,
+        1 => (1u64 << 63) + k,
+        2 => (1u64 << 63) - 1 - k,
+        3 => (1u64 << 32) + k,
+        4 => (base.len() - e) as u64 + 1 + k,
+        5 => 0,
+        6 => u64::MAX,
+        _ => (1u64 << 62) + k,
+    };
+    let mut varint = Vec::new();
+    let mut v = value;
+    loop {
+        let b = (v & 0x7F) as u8;
+        v >>= 7;
+        if v == 0 {
+            varint.push(b);
+            break;
+        }
+        varint.push(b | 0x80);
+    }
+    let mut out = base[..s].to_vec();
+    out.extend(varint);
+    out.extend(&base[e..]);
+    Some(out)
+}
+
 fn proto_bases<T: ZooType>(uper_bases: &[(Vec<u8>, usize)]) -> Vec<(Vec<u8>, usize)> {
     use asn1rs::rw::ProtobufWriter;
     let mut out = Vec::new();
@@ -1613,6 +1771,14 @@ fn c04_run<T: ZooType>(ctx: &mut ZooCtx, e: &TypeEntry, bases: Vec<(Vec<u8>, usi
         if i < n {
             (false, fault_input(&mut rng, &bases))
         } else {
+            // every third protobuf input: a hostile length in an otherwise valid message
+            if i % 3 == 0 && !pbases.is_empty() {
+                let base = rng.pick(&pbases).0.clone();
+                if let Some(bytes) = proto_length_fault(&mut rng, &base) {
+                    let n = bytes.len() * 8;
+                    return (true, FaultInput { bytes, bit_len: n, kind: "hostile-length".into() });
+                }
+            }
             let mut inp = fault_input(&mut rng, &pbases);
             // the protobuf reader takes whole bytes
             inp.bytes.truncate((inp.bit_len + 7) / 8);
